@@ -58,12 +58,18 @@ def parseOp (f : List String) : Option Op :=
   | "setgi" :: r :: _ => some (.setgi (idx! r) (kv f "by" = "owner") (parseGI f))
   | "force" :: r :: _ => (parseGI f).map fun g => .force (idx! r) (kv f "by" = "gov") g
   -- `te=0`: MsgCreatePlan.trading_enabled = false; lines without the token (older replays) mean te=1
-  | "plan" :: r :: _ => some (.plan (idx! r) (kv f "by" = "owner") (int! (kv f "alloc")) (kvN f "dur") (kv f "te" != "0"))
+  -- `start=<seconds>`: MsgCreatePlan.start_time; lines without the token carry the zero time
+  | "plan" :: r :: _ => some (.plan (idx! r) (kv f "by" = "owner") (int! (kv f "alloc")) (kvN f "dur") (kv f "te" != "0")
+                              (if kv f "start" = "" then none else some (kvN f "start")))
   | "enable" :: r :: _ => some (.enable (idx! r) (kv f "by" = "owner"))
   | "tick" :: _ => some (.tick (kvN f "dt"))
   | "seq" :: r :: _ => some (.seq (idx! r))
   | "link" :: r :: _ => some (.link (idx! r))
   | "link2" :: r :: _ => some (.link2 (idx! r))
+  | "canon" :: r :: _ => some (.canon (idx! r))
+  -- how the channel reached OPEN on the hub: a top-level MsgChannelOpenAck, one nested in authz.MsgExec, or Try/Confirm
+  | "chopen" :: r :: _ => some (.chopen (idx! r) (match kv f "via" with | "ack" => 0 | "nested" => 1 | _ => 2))
+  | "premd" :: r :: _ => some (.premd (idx! r))
   | "plainch" :: _ => some .plainch
   | "send" :: c :: _ => some (.send (idx! c))
   | "recv" :: c :: _ => some (.recv (idx! c) (kvN f "ph") (parsePkt f))
@@ -95,7 +101,7 @@ def renderRa (r : Ra) : String :=
   -- after an IRO settlement the IRO module moves its vouchers on (pool, incentives): not part of this model
   let bal := (r.bal.filter (fun x => x.2 != 0 && !(x.1 == iroAddr && r.plan.isSome))).foldl (fun acc x => insSorted x acc) []
   let bals := if bal.isEmpty then "-" else joinWith "," (bal.map fun x => s!"{x.1}:{x.2}")
-  s!" | r{r.id} l={b2s r.launched} gi={renderGI r.gi} pl={pl} plan={plan} te={te} ps={ps} ch={ch} tph={r.tph} md={b2s r.md} bal={bals}"
+  s!" | r{r.id} l={b2s r.launched} gi={renderGI r.gi} pl={pl} plan={plan} te={te} ps={ps} ch={ch} tph={r.tph} no={r.nOpen} md={b2s r.md} bal={bals}"
 
 def gerrName : GErr → String
   | .badPrefix => "badPrefix" | .badChecksum => "badChecksum" | .noNative => "noNative" | .badMetadata => "badMetadata"
@@ -107,6 +113,7 @@ def rerrName : RErr → String
   | .checksum => "checksum" | .pfx => "prefix" | .denom => "denom" | .supply => "supply" | .accounts => "accounts"
   | .trRequired => "trRequired" | .trUnexpected => "trUnexpected" | .trReceiver => "trReceiver" | .trAmount => "trAmount"
   | .ibcDenom => "ibcDenom" | .credit => "credit" | .enable => "enable" | .lower => "lower"
+  | .noChannel => "noChannel" | .mdExists => "mdCreate"
 
 def resName : Res → String
   | .ok => "ok" | .err => "err" | .panic => "panic" | .async => "async" | .rerr e => "err:" ++ rerrName e
